@@ -280,9 +280,10 @@ class Workspace(AbstractContextManager):
         if entity_kwargs is None:
             return None
 
-        # do not share mutable dictionaries (metadata, options, ...) with the source
+        # do not share mutable dictionaries (metadata, options, ...) or arrays
+        # (cells, octree cells, ...) with the source
         for key, value in entity_kwargs.items():
-            if isinstance(value, dict):
+            if isinstance(value, (dict, np.ndarray)):
                 entity_kwargs[key] = deepcopy(value)
 
         entity_type_kwargs = get_attributes(
